@@ -49,7 +49,13 @@ func startProc(kind string, tlimitMs int) (*Proc, error) {
 	var cmd *exec.Cmd
 	switch kind {
 	case "cvc5":
-		cmd = exec.Command("cvc5", "--incremental", "--strings-exp", "--produce-models", "--lang=smt2", fmt.Sprintf("--tlimit-per=%d", tlimitMs))
+		// cvc5 answers the easy queries in milliseconds and rarely recovers on the hard nonlinear ones,
+		// which z3 4.8.12 then decides quickly (measured): cap cvc5 at 4 s per query
+		cl := tlimitMs
+		if cl > 4000 {
+			cl = 4000
+		}
+		cmd = exec.Command("cvc5", "--incremental", "--strings-exp", "--produce-models", "--lang=smt2", fmt.Sprintf("--tlimit-per=%d", cl))
 	case "z3":
 		cmd = exec.Command("z3-new", "-in", fmt.Sprintf("-t:%d", tlimitMs))
 	case "z3old":
@@ -147,8 +153,9 @@ type Solver struct {
 	procs   []*Proc
 	tlimit  int
 	diff    bool
-	nUnk    int
-	lastErr string
+	nUnk      int
+	cvcGaveUp int
+	lastErr   string
 }
 
 func NewSolver(in *Interner, tlimitMs int) *Solver {
@@ -363,8 +370,18 @@ func (s *Solver) CheckInc(pc []*Term, extra []*Term, wantModel []*Term) (Result,
 	}
 	all := append(append([]*Term{}, pc...), extra...)
 	strs := hasStrOps(all, map[int]bool{})
-	r, m := s.checkIncOn("cvc5", pc, extra, wantModel)
+	var r Result
+	var m map[string]string
+	if s.cvcGaveUp >= 5 && !strs {
+		// this obligation's queries are of the kind cvc5 gives up on: ask z3 4.8.12 first
+		r, m = s.checkOn("z3old", all, wantModel)
+		if r != Unknown {
+			return r, m
+		}
+	}
+	r, m = s.checkIncOn("cvc5", pc, extra, wantModel)
 	if r == Unknown {
+		s.cvcGaveUp++
 		// z3 4.8.12 decides most of the nonlinear queries cvc5 gives up on (measured); also try z3 5.x
 		r, m = s.checkOn("z3old", all, wantModel)
 		if r == Unknown && !strs {
